@@ -251,6 +251,22 @@ def case_form(rep):
             run.compare("form.nonsymmetric", "form=convection clause=entries parallel=%s" % parallel, maxabs(got - Kn) / maxabs(Kn), 1e-12,
                         "a weak form that is not symmetric in (v, u) assembles other entries than the defining sum (rows = test function)",
                         unit="form:nonsymmetric", config=(fam, "nonsymmetric", parallel))
+        # the same Form object used for fields of another region (documented: v=, u= hand over other fields): basis functions AND
+        # differential volumes are those of the fields given, then back to the first ones
+        meshB = mesh.copy(points=mesh.points @ gen.random_affine(rng, d)[0].T * float(rng.uniform(1.5, 2.5)))
+        regB = gen.make_region(fam, meshB)
+        fieldB = fem.FieldContainer([fem.Field(regB, dim=d)])
+        KB = fem.IntegralForm([C4], v=fieldB, dV=regB.dV, u=fieldB).assemble().toarray()
+        rB = fem.IntegralForm([bq], v=fieldB, dV=regB.dV, grad_v=[False]).assemble().toarray().ravel()
+        for parallel in (False, True):
+            gotK = bil.assemble(v=fieldB, u=fieldB, parallel=parallel).toarray()
+            gotr = lin.assemble(v=fieldB, parallel=parallel).toarray().ravel()
+            run.compare("form.other-fields", "form=bilinear clause=fields-handed-over parallel=%s" % parallel, maxabs(gotK - KB) / maxabs(KB), 1e-12,
+                        "a Form assembled with the fields of another region differs from the array form on that region", unit="form:other-region", config=(fam, "other-region", parallel))
+            run.compare("form.other-fields", "form=linear clause=fields-handed-over parallel=%s" % parallel, maxabs(gotr - rB) / maxabs(rB), 1e-12,
+                        "a linear Form assembled with the fields of another region differs from the array form on that region", unit="form:other-region")
+        run.compare("form.other-fields", "form=bilinear clause=back-to-the-first-fields", maxabs(bil.assemble(v=field, u=field).toarray() - Kref) / maxabs(Kref), 1e-12,
+                    "a Form handed back its first fields differs from the array form on the first region", unit="form:other-region")
         # thread hooks: recording Thread + yield injection in `contribution` and the weak forms
         orig_B, orig_L = EB.Thread, EL.Thread
         EB.Thread = EL.Thread = sched.RecordingThread
@@ -331,7 +347,7 @@ SPEC = {
                        "kind:planestrain uniform", "mixed:cartesian:n=3", "mixed:cartesian:n=2", "mixed:planestrain:n=3",
                        "mixed:planestrain:n=2", "mixed:axisymmetric:n=3", "mixed:axisymmetric:n=2", "assemble(values=integrate())", "block-mode=1", "block-mode=2", "block-mode=3", "none-block", "parallel-einsum", "dual-points-per-cell=1",
                        "dual-points-per-cell=4", "dual-points-per-cell=3", "distinct-thread-completion-orders>=2",
-                       "form:linear:parallel=True", "form:linear:parallel=False", "form:parallel-basis", "form:nonsymmetric"]
+                       "form:linear:parallel=True", "form:linear:parallel=False", "form:parallel-basis", "form:nonsymmetric", "form:other-region"]
     + ["form:%s:parallel=%s:sym=%s" % (k, p, s) for k in ("bilinear", "mixed") for p in (True, False) for s in (True, False)],
     "rule": ("random integrand arrays of every admissible tensor order (full and (1,1)-broadcast trailing axes) for single fields "
              "(Cartesian 2D/3D vector, scalar, plane strain with 3D integrands, axisymmetric) on 9 element families incl. uniform "
